@@ -194,3 +194,108 @@ pub trait NonsymView<T> {
     /// stored scaling matrix Hs, dense row-major
     fn v_Hs(&self) -> Vec<Vec<T>>;
 }
+
+// H6 : chordal analysis, union-find and decomposition wrappers (sdp feature only)
+#[cfg(feature = "sdp")]
+pub use self::chordal_hooks::*;
+
+#[cfg(feature = "sdp")]
+mod chordal_hooks {
+    use crate::algebra::*;
+    use crate::solver::chordal::*;
+    use crate::solver::{DefaultSettings, DefaultVariables, SupportedConeT};
+
+    /// plain-vector view of a clique tree (raw arrays of the SuperNodeTree)
+    #[derive(Clone, Debug)]
+    pub struct CliqueTreeView {
+        pub orig_index: usize,
+        pub n_cliques: usize,
+        pub snode: Vec<Vec<usize>>,
+        pub separators: Vec<Vec<usize>>,
+        pub snode_parent: Vec<usize>,
+        pub snode_post: Vec<usize>,
+        pub nblk: Vec<usize>,
+        pub ordering: Vec<usize>,
+    }
+
+    fn view(sp: &SparsityPattern) -> CliqueTreeView {
+        let t = &sp.sntree;
+        CliqueTreeView {
+            orig_index: sp.orig_index,
+            n_cliques: t.n_cliques,
+            snode: t.snode.iter().map(|s| s.iter().copied().collect()).collect(),
+            separators: t.separators.iter().map(|s| s.iter().copied().collect()).collect(),
+            snode_parent: t.snode_parent.clone(),
+            snode_post: t.snode_post.clone(),
+            nblk: t.nblk.clone().unwrap_or_default(),
+            ordering: sp.ordering.clone(),
+        }
+    }
+
+    /// run the chordal analysis of one PSD cone on a boolean mask over its upper triangle
+    /// (svec order).  None = left undecomposed (dense, or merged back into one clique).
+    pub fn verif_chordal_analysis(mask: &[bool], dim: usize, merge_method: &str) -> Option<CliqueTreeView> {
+        let mut m = mask.to_vec();
+        verif_analyse_pattern(&mut m, dim, merge_method).map(|sp| view(&sp))
+    }
+
+    pub struct VerifDSU(DisjointSetUnion);
+    impl VerifDSU {
+        pub fn new(n: usize) -> Self {
+            Self(DisjointSetUnion::new(n))
+        }
+        pub fn union(&mut self, x: usize, y: usize) {
+            self.0.union(x, y)
+        }
+        pub fn in_same_set(&mut self, x: usize, y: usize) -> bool {
+            self.0.in_same_set(x, y)
+        }
+        pub fn state(&self) -> (Vec<usize>, Vec<usize>) {
+            self.0.verif_state()
+        }
+    }
+
+    /// a live ChordalInfo, as the problem-data constructor builds it
+    pub struct VerifChordal<T>(ChordalInfo<T>);
+
+    #[allow(clippy::type_complexity)]
+    impl<T: FloatT> VerifChordal<T> {
+        pub fn new(A: &CscMatrix<T>, b: &[T], cones: &[SupportedConeT<T>], settings: &DefaultSettings<T>) -> Option<Self> {
+            let c = ChordalInfo::new(A, b, cones, settings);
+            if c.is_decomposed() {
+                Some(Self(c))
+            } else {
+                None
+            }
+        }
+        pub fn patterns(&self) -> Vec<CliqueTreeView> {
+            self.0.spatterns.iter().map(view).collect()
+        }
+        pub fn augment(
+            &mut self,
+            P: &CscMatrix<T>,
+            q: &[T],
+            A: &CscMatrix<T>,
+            b: &[T],
+            settings: &DefaultSettings<T>,
+        ) -> (CscMatrix<T>, Vec<T>, CscMatrix<T>, Vec<T>, Vec<SupportedConeT<T>>) {
+            self.0.decomp_augment(P, q, A, b, settings)
+        }
+        /// map (x,s,z) of the augmented problem back to the original problem
+        pub fn reverse(
+            &self,
+            x: &[T],
+            s: &[T],
+            z: &[T],
+            aug_cones: &[SupportedConeT<T>],
+            settings: &DefaultSettings<T>,
+        ) -> (Vec<T>, Vec<T>, Vec<T>) {
+            let mut v = DefaultVariables::<T>::new(x.len(), s.len());
+            v.x.copy_from(x);
+            v.s.copy_from(s);
+            v.z.copy_from(z);
+            let out = self.0.decomp_reverse(&v, aug_cones, settings);
+            (out.x, out.s, out.z)
+        }
+    }
+}
